@@ -91,7 +91,17 @@ def build_harness():
     with Lock("harness"):
         h = os.path.join(ROOT, "harness")
         shutil.copyfile(os.path.join(REPO, "go.sum"), os.path.join(h, "go.sum"))
-        rc, out, dt = run(["go", "build", "-tags", "verif", "-o", WWH, "./cmd/wwh"], cwd=h, env=goenv(), timeout=900)
+        cmd = ["go", "build", "-tags", "verif", "-o", WWH, "./cmd/wwh"]
+        if os.path.realpath(REPO) != "/repo":
+            # VERIF_REPO (scratch copies used to try changes without touching /repo): harness/go.mod pins
+            # `replace github.com/nais/wonderwall => /repo`, so build with a copy of it that points at the scratch tree
+            os.makedirs(BUILD, exist_ok=True)
+            mod = open(os.path.join(h, "go.mod")).read().replace("=> /repo", "=> " + os.path.realpath(REPO))
+            modfile = os.path.join(BUILD, "harness-scratch.mod")
+            open(modfile, "w").write(mod)
+            shutil.copyfile(os.path.join(REPO, "go.sum"), os.path.join(BUILD, "harness-scratch.sum"))
+            cmd = ["go", "build", "-modfile", modfile, "-tags", "verif", "-o", WWH, "./cmd/wwh"]
+        rc, out, dt = run(cmd, cwd=h, env=goenv(), timeout=900)
         if rc != 0:
             raise InfraError("harness build failed against /repo:\n" + out[-4000:])
         return dt
